@@ -120,7 +120,9 @@ def check(P: Project, R: Report) -> None:
         kind = None
         known_bad = False
         detail = an.origin(inner)[:110]
-        if d is not None and isinstance(d[1], ast.Call):
+        trims = (f"{msg}.strip()", f"{msg}.rstrip()", f"{msg}.lstrip()")
+        trimmed = inner in trims or (d is not None and d[0] in trims)
+        if d is not None and isinstance(d[1], ast.Call) and not trimmed:
             c = d[1]
             cn = call_name(c)
             indent = kwarg(c, "indent")
@@ -152,9 +154,10 @@ def check(P: Project, R: Report) -> None:
                 kind = None
                 known_bad = True
                 detail = f"serialiser called with indent: `{ast.unparse(c)[:70]}`"
-        elif inner == msg:
-            # raw pass-through of the caller's string: only on a path that excluded CR and LF
-            def _excludes_breaks() -> bool:
+        elif inner == msg or trimmed:
+            # raw pass-through of the caller's string (possibly with the blanks at its ends cut off — still a piece of the
+            # caller's text, no character added): only on a path that excluded CR and LF from what is framed
+            def _excludes_breaks(msg=msg) -> bool:
                 if f"'\\n' not in {msg}" in lits and f"'\\r' not in {msg}" in lits:
                     return True
                 # set form: `BREAKS.isdisjoint(msg)` / `not (set(msg) & BREAKS)` with BREAKS ⊇ {LF, CR}
@@ -181,7 +184,7 @@ def check(P: Project, R: Report) -> None:
                                 return True
                 return False
 
-            if _excludes_breaks():
+            if _excludes_breaks() or (inner != msg and _excludes_breaks(inner)):
                 kind = "str without CR/LF"
             else:
                 known_bad = True
